@@ -50,7 +50,9 @@ func UtxoValidateRequiredVKeyWitnesses(
 	return shelley.UtxoValidateRequiredVKeyWitnesses(tx, slot, ls, pp)
 }
 
-// UtxoValidateOutsideValidityIntervalUtxo ensures that the current tip slot has reached the specified validity interval
+// UtxoValidateOutsideValidityIntervalUtxo ensures that the current tip slot is inside the transaction's
+// validity interval: at or after the validity interval start and strictly before the invalid-hereafter
+// bound (TTL), for each bound that is set
 func UtxoValidateOutsideValidityIntervalUtxo(
 	tx common.Transaction,
 	slot uint64,
@@ -58,13 +60,22 @@ func UtxoValidateOutsideValidityIntervalUtxo(
 	_ common.ProtocolParameters,
 ) error {
 	validityIntervalStart := tx.ValidityIntervalStart()
-	if validityIntervalStart == 0 || slot >= validityIntervalStart {
-		return nil
+	if validityIntervalStart != 0 && slot < validityIntervalStart {
+		return OutsideValidityIntervalUtxoError{
+			ValidityIntervalStart: validityIntervalStart,
+			Slot:                  slot,
+		}
 	}
-	return OutsideValidityIntervalUtxoError{
-		ValidityIntervalStart: validityIntervalStart,
-		Slot:                  slot,
+	// From Allegra on the TTL field is "invalid hereafter": the transaction is
+	// valid only at slots strictly before it
+	if ttl := tx.TTL(); ttl != 0 && slot >= ttl {
+		return OutsideValidityIntervalUtxoError{
+			ValidityIntervalStart: validityIntervalStart,
+			InvalidHereafter:      &ttl,
+			Slot:                  slot,
+		}
 	}
+	return nil
 }
 
 func UtxoValidateInputSetEmptyUtxo(
